@@ -39,6 +39,24 @@ func runC19(p *load.Program, r *oblig.Report) {
 	c19BrokerPlaceholders(p, r)
 	c19AwaitAll(p, r, "C19.R8 every part of a split request reaches the merger")
 	c19TopicErrorFirst(p, r, "C19.R6 ConsumerOffsets reports the coordinator's errors")
+	// the offsets, positions and partition lists are read from, and written into, messages laid out as Kafka defines
+	// them for every version: a field out of place shifts everything that follows it (the schema rule of C04)
+	sub := oblig.NewReport("C19", r.Tier)
+	c04Schemas(p, sub)
+	for _, o := range sub.Obs {
+		keep := false
+		for _, api := range []string{"ListOffsets", "OffsetFetch", "OffsetCommit", "Metadata"} {
+			if strings.Contains(o.Construct, api) {
+				keep = true
+			}
+		}
+		if !keep {
+			continue
+		}
+		o2 := *o
+		o2.Rule = "C19.R10 the offset and metadata messages have the Kafka wire layout (" + strings.SplitN(o.Rule, " ", 2)[0] + ")"
+		r.Add(&o2)
+	}
 }
 
 // ---------- provenance rendering
